@@ -296,8 +296,9 @@ pub fn ep_theme() -> impl Strategy<Value = RawPos> {
         any::<u16>(),                         // slider selector
         0u8..64,                              // other king
         prop::collection::vec(item(), 0..6),  // extras
+        any::<u8>(),                          // arrangement 5: own men boxing the checked king in
     )
-        .prop_map(|(white, f, caps, arr, ksel, ssel, ok, extras)| {
+        .prop_map(|(white, f, caps, arr, ksel, ssel, ok, extras, box_mask)| {
             let f = f as i8;
             let r: i8 = if white { 4 } else { 3 }; // rank index both pawns stand on
             let victim = sq_of(f, r).unwrap();
@@ -325,6 +326,7 @@ pub fn ep_theme() -> impl Strategy<Value = RawPos> {
             let mut slider: Option<(u8, u8)> = None;
             let mut enemy_king: Option<u8> = None;
             let mut own_slider: Option<(u8, u8)> = None;
+            let mut boxed: Vec<(u8, u8, bool)> = Vec::new();
             match arr {
                 1 => {
                     // same rank: king on one side, rook/queen on the other
@@ -413,6 +415,19 @@ pub fn ep_theme() -> impl Strategy<Value = RawPos> {
                         .filter(free)
                         .collect();
                     king = pick(&cands, ksel);
+                    // box the king in with its own men so that few replies remain
+                    if let Some(k) = king {
+                        let nb: [(i8, i8); 8] = [(1, 0), (1, 1), (0, 1), (-1, 1), (-1, 0), (-1, -1), (0, -1), (1, -1)];
+                        for (i, (df, dr)) in nb.iter().enumerate() {
+                            if box_mask >> i & 1 == 1 {
+                                if let Some(s) = sq_of(file_of(k) + df, rank_of(k) + dr) {
+                                    if free(&s) && rank_of(s) != 0 && rank_of(s) != 7 {
+                                        boxed.push((s, if i % 2 == 0 { 0u8 } else { 1u8 }, white));
+                                    }
+                                }
+                            }
+                        }
+                    }
                 }
                 _ => {}
             }
@@ -422,6 +437,7 @@ pub fn ep_theme() -> impl Strategy<Value = RawPos> {
             if let Some((s, t)) = own_slider {
                 items.push((s, t, white));
             }
+            items.extend(boxed);
             let king = king.unwrap_or_else(|| (ksel % 64) as u8);
             let ok = enemy_king.unwrap_or(ok);
             let (wk, bk) = if white { (king, ok) } else { (ok, king) };
@@ -436,6 +452,26 @@ pub fn ep_theme() -> impl Strategy<Value = RawPos> {
                 half: 0,
             }
         })
+}
+
+/// The position one ply BEFORE an en-passant set-up: the double step is still to be played
+/// (so its annotation - check, mate, or neither - and its label are exercised).
+pub fn pre_double_step() -> impl Strategy<Value = String> {
+    ep_theme().prop_map(|r| {
+        let p = build(&r);
+        if let Some(t) = p.ep {
+            let mover = p.side.other();
+            let (from, to) = if mover == Side::White { (t - 8, t + 8) } else { (t + 8, t - 8) };
+            let mut q = p.clone();
+            q.sq[from as usize] = q.sq[to as usize].take();
+            q.side = mover;
+            q.ep = None;
+            if q.consistent().is_ok() {
+                return q.fen();
+            }
+        }
+        p.fen()
+    })
 }
 
 /// Pawns on the seventh with capturable pieces on the eighth, mover possibly in check.
@@ -839,6 +875,7 @@ pub fn position() -> BoxedStrategy<String> {
         2 => pawn_placement().prop_map(|r| build(&r).fen()),
         3 => castle_theme().prop_map(|r| build(&r).fen()),
         3 => ep_theme().prop_map(|r| build(&r).fen()),
+        1 => pre_double_step(),
         2 => promo_theme().prop_map(|r| build(&r).fen()),
         3 => pin_check_theme().prop_map(|r| build(&r).fen()),
         2 => cage_theme().prop_map(|r| build(&r).fen()),
